@@ -15,4 +15,7 @@ def run(rep, fb, tier):
     forward.rule_same_name(rep, fb, select=lambda f: f["name"] in ("tojson_part", "tojson", "tojson_string", "tojson_boolean", "tojson_integer", "tojson_real", "tojson_complex") or f["file"].endswith("io/json.cpp"), floor=30, name="FORWARD.same-name:json")
     from ..rules import lints as _l
     _l.rule_string_equality(rep, fb)
+    from ..rules import pyrules as _pr
+    _pr.rule_py_unreachable(rep)
+    _pr.rule_py_callback_layout(rep)
     rep.units = fb.units
